@@ -52,6 +52,21 @@ class C19(Prop):
             ops += body + [{"op": "dumpfs"}, {"op": "counters"}]
             cases.append({"ci": ci, "updvar": upd, "colour": False, "ops": ops,
                           "meta": {"p1_len": len(p1), "execs": execs}})
+        # update mode replaces the file WHOLESALE: the second execution presents a near miss of the stored value (a final newline
+        # more or less, a trailing blank, CRLF for LF, ...) with updating enabled; the file must then hold exactly the new bytes,
+        # and a read-only process must pass against them
+        for i in range(max(10, n // 8)):
+            r = rng.fork()
+            t = r.choice(G.TEST_NAMES + G.PCT_STANDALONE)
+            v = r.choice([b"<html>\n<body>hi</body>\n</html>", b"line one\nline two\n", b"", b"a", b"x\ny", G.gen_text(r, allow_cr_end=True)])
+            k = r.below(7)
+            v2 = [v + b"\n", v + b" ", v[:-1] if v else b"\n", b"\n" + v, v.replace(b"\n", b"\r\n") if b"\n" in v else v + b"\r", v + b"\n\n", v.rstrip(b"\n") if v.endswith(b"\n") else v + b"\t"][k]
+            if v2 == v:
+                v2 = v + b"\n"
+            cfg = G.op_newconfig(dir=b"d1", upd=True)
+            ops = [cfg, G.op_match_doc("stand", 1, t, v), G.op_end(t), G.op_match_doc("stand", 1, t, v2), G.op_end(t), {"op": "dumpfs"},
+                   {"op": "newprocess"}, G.op_newconfig(dir=b"d1"), G.op_setenv(r.chance(1, 2), "unset"), G.op_match_doc("stand", 1, t, v2), {"op": "dumpfs"}]
+            cases.append({"ci": False, "updvar": "unset", "colour": r.chance(1, 2), "ops": ops, "meta": {"mode": "wholesale"}})
         return cases
 
     def value(self, r):
@@ -73,6 +88,23 @@ class C19(Prop):
         fails = []
         obs = [r for r in results if r[0] == "obs"]
         fss = [r for r in results if r[0] == "fs"]
+        if case.get("meta", {}).get("mode") == "wholesale":
+            ms = [(kv, o) for (n_, kv), (_, _, o) in zip([o_ for o_ in ops if o_[0] not in ("init", "dumpfs", "counters")], obs) if n_ == "match"]
+            if len(ms) != 3 or len(fss) != 2 or not all(kv["pre"].startswith("ok:") for kv, _ in ms):
+                return self.skip("guard")
+            (k1, o1), (k2, o2), (k3, o3) = ms
+            if k1["pre"] == k2["pre"] or k2["pre"] != k3["pre"]:
+                return self.skip("guard")
+            w1 = [w.split(":", 1)[1] for w in o1.get("writes", "-").split(",") if w != "-" and b".snap" in unhx(w.split(":", 1)[1])]
+            if o1["outcome"] != "added" or len(w1) != 1:
+                return self.skip("guard")
+            if o2["outcome"] != "updated" or fss[0][2].get(w1[0]) != k2["pre"][3:]:
+                fails.append({"msg": "update mode, stored %r, presented %r: outcome=%s and the file holds %r - not the new value wholesale" % (
+                    unhx(k1["pre"][3:])[:30], unhx(k2["pre"][3:])[:30], o2["outcome"], unhx(fss[0][2].get(w1[0], "-"))[:30])})
+            elif o3["outcome"] != "passed" or o3["errors"] != "0" or o3["writes"] != "-":
+                fails.append({"msg": "after the wholesale update the read-only replay of %r: outcome=%s errors=%s writes=%s" % (
+                    unhx(k3["pre"][3:])[:30], o3["outcome"], o3["errors"], o3["writes"])})
+            return fails
         # pair ops with obs (ops that produce obs, in order)
         op_with_obs = [o for o in ops if o[0] not in ("init", "dumpfs", "counters")]
         if len(op_with_obs) != len(obs):
